@@ -346,7 +346,8 @@ def outer_origins(F, fn, op, depth=3, transparent_extra=(), _seen=None):
                 continue
             for owner, rv in cr:
                 if idx < len(rv["ops"]):
-                    out.extend(outer_origins(F, owner, rv["ops"][idx], depth - 1, transparent_extra, _seen))
+                    for fn2, o2 in outer_origins(F, owner, rv["ops"][idx], depth - 1, transparent_extra, _seen):
+                        out.append((fn2, _with_proj(o2, o.proj[1:])))
             continue
         if fn.get("def_kind") == "Closure":
             out.append((fn, o))
@@ -357,8 +358,18 @@ def outer_origins(F, fn, op, depth=3, transparent_extra=(), _seen=None):
             continue
         for caller, t in sites:
             if o.local - 1 < len(t["args"]):
-                out.extend(outer_origins(F, caller, t["args"][o.local - 1], depth - 1, transparent_extra, _seen))
+                for fn2, o2 in outer_origins(F, caller, t["args"][o.local - 1], depth - 1, transparent_extra, _seen):
+                    out.append((fn2, _with_proj(o2, o.proj)))
     return out
+
+
+def _with_proj(o, extra):
+    """the origin with the projections the callee applied to its parameter appended"""
+    if not extra:
+        return o
+    n = mir.Origin(o.kind, local=o.local, proj=tuple(o.proj) + tuple(extra), bb=o.bb, callee=o.callee, const=o.const,
+                   through=o.through, term=o.term, rv=o.rv)
+    return n
 
 
 # ------------------------------------------------------------------------------------------
